@@ -13,7 +13,7 @@ from paths import *
 from shape import *
 
 SCOPE = ['handles::convert_unaligned_utf16_to_utf8', 'utf_8::convert_utf16_to_utf8_partial_inner', 'utf_8::convert_utf16_to_utf8_partial_tail',
-         'utf_8::convert_utf8_to_utf16_up_to_invalid']
+         'utf_8::convert_utf8_to_utf16_up_to_invalid', 'mem::convert_latin1_to_utf8_partial']
 TOP = 1 << 30
 
 
@@ -38,6 +38,13 @@ def lin(e):
         return out, ka + sg * kb
     if e[0] == 'cast':
         return lin(e[2])
+    if e[0] == 'call' and (e[1] or '').endswith('::unwrap') and len(e[2]) == 1:
+        # a.checked_add(b).unwrap() is a + b on every path that continues
+        inner = e[2][0]
+        while isinstance(inner, tuple) and inner[0] in ('ref', 'deref', 'move', 'copy'):
+            inner = inner[1]
+        if isinstance(inner, tuple) and inner[0] == 'call' and (inner[1] or '').endswith('::checked_add') and len(inner[2]) == 2:
+            return lin(('bin', 'Add', inner[2][0], inner[2][1]))
     return {e: 1}, 0
 
 
